@@ -9,7 +9,11 @@ RULE = ("random epsilon-NFA/NFA/DFA specs (0-5 states, 1-3 symbols, string state
         "when the trimmed automaton is acyclic) are compared with the Lean model and with the exact oracles "
         "(isEmpty_iff, isDeterministic_iff theorems; bounded language enumeration; reachable-cycle search). "
         "Non-trivial: >=2 states, >=2 transitions, a start and a final state.")
-THEOREMS = ["Pfl.ENFA.isEmpty_iff",
+THEOREMS = ["Pfl.ENFA.isAcyclic_total",
+            "Pfl.ENFA.isAcyclic_no_polynomial_bound",
+            "Pfl.ENFA.acceptedWords_total",
+            "Pfl.ENFA.acceptedWords_unbounded_total",
+            "Pfl.ENFA.isEmpty_iff",
             "Pfl.ENFA.isDeterministicE_iff",
             "Pfl.ENFA.isDeterministicN_iff",
             "Pfl.ENFA.reachableCycle_iff",
